@@ -748,7 +748,11 @@ func equalLength(x, src ssa.Value) bool {
 		okAll := false
 		for _, ed := range v.Edges {
 			if isNilConst(ed) {
-				continue // the nil edge is taken only when len(src) == 0: the loop body does not run
+				// the nil edge must be taken only when len(src) == 0 (then the loop body does not run)
+				if !nilEdgeOnlyWhenEmpty(v, src) {
+					return false
+				}
+				continue
 			}
 			if !equalLength(ed, src) {
 				return false
@@ -778,6 +782,103 @@ func equalLength(x, src ssa.Value) bool {
 		}
 	case *ssa.ChangeType:
 		return equalLength(v.X, src)
+	}
+	return false
+}
+
+// nilEdgeOnlyWhenEmpty: every nil edge of phi comes from a branch outcome that implies len(src) == 0.
+func nilEdgeOnlyWhenEmpty(phi *ssa.Phi, src ssa.Value) bool {
+	pb := phi.Block()
+	for i, ed := range phi.Edges {
+		if !isNilConst(ed) {
+			continue
+		}
+		pred := pb.Preds[i]
+		ok := false
+		for _, ib := range pb.Parent().Blocks {
+			iff, isIf := ib.Instrs[len(ib.Instrs)-1].(*ssa.If)
+			if !isIf {
+				continue
+			}
+			for e, succ := range ib.Succs {
+				onTrue := e == 0
+				if !edgeImpliesEmpty(iff.Cond, onTrue, src) {
+					continue
+				}
+				// the edge leads straight into the phi block from ib, or into a region that dominates pred
+				if (succ == pb && pred == ib) || (len(succ.Preds) == 1 && succ.Dominates(pred)) {
+					ok = true
+				}
+			}
+		}
+		if !ok {
+			return false
+		}
+	}
+	return true
+}
+
+// edgeImpliesEmpty: on this outcome of cond, len(x) == 0.
+func edgeImpliesEmpty(cond ssa.Value, onTrue bool, x ssa.Value) bool {
+	if v, trueMeansNonNil, ok := nilTest(cond); ok && (v == x || sameLoad(v, x)) {
+		return trueMeansNonNil != onTrue
+	}
+	bo, ok := cond.(*ssa.BinOp)
+	if !ok {
+		return false
+	}
+	isLen := func(v ssa.Value) bool {
+		lc, ok := v.(*ssa.Call)
+		if !ok {
+			return false
+		}
+		bi, ok := lc.Call.Value.(*ssa.Builtin)
+		return ok && bi.Name() == "len" && (lc.Call.Args[0] == x || sameLoad(lc.Call.Args[0], x))
+	}
+	op, l, r := bo.Op, bo.X, bo.Y
+	if !isLen(l) && isLen(r) { // k OP len(x)  ->  len(x) OP' k
+		l, r = r, l
+		switch op {
+		case token.LSS:
+			op = token.GTR
+		case token.LEQ:
+			op = token.GEQ
+		case token.GTR:
+			op = token.LSS
+		case token.GEQ:
+			op = token.LEQ
+		}
+	}
+	if !isLen(l) {
+		return false
+	}
+	k, ok := constInt(r)
+	if !ok {
+		return false
+	}
+	if !onTrue {
+		switch op {
+		case token.LSS:
+			op = token.GEQ
+		case token.LEQ:
+			op = token.GTR
+		case token.GTR:
+			op = token.LEQ
+		case token.GEQ:
+			op = token.LSS
+		case token.EQL:
+			op = token.NEQ
+		case token.NEQ:
+			op = token.EQL
+		}
+	}
+	switch op {
+	case token.EQL:
+		return k == 0
+	case token.LEQ:
+		return k == 0
+	case token.LSS:
+		return k == 1
 	}
 	return false
 }
